@@ -313,3 +313,70 @@ func grantKey(i int) *Case {
 	}
 	return c
 }
+
+// taggedAnchor: in the later layer a tagged node carries an anchor and is used again through
+// aliases by other services: the tag applies wherever the node stands.
+func taggedAnchor(i int) *Case {
+	asDocs := i%2 == 1
+	variant := (i / 2) % 3
+	l1 := "services:\n  one:\n    image: a\n    environment: {KEEP: one}\n    ports: [\"8001:80\"]\n  two:\n    image: b\n    environment: {KEEP: two}\n    ports: [\"8002:80\"]\n  three:\n    image: c\n    environment: {KEEP: three}\n    ports: [\"8003:80\"]\n"
+	var l2, target string
+	switch variant {
+	case 0: // !override on an anchored mapping, two aliases
+		l2 = "services:\n  one:\n    environment: &env !override {NEW: \"1\"}\n  two:\n    environment: *env\n  three:\n    environment: *env\n"
+		target = "services:\n  one:\n    image: a\n    environment: {NEW: \"1\"}\n    ports: [\"8001:80\"]\n  two:\n    image: b\n    environment: {NEW: \"1\"}\n    ports: [\"8002:80\"]\n  three:\n    image: c\n    environment: {NEW: \"1\"}\n    ports: [\"8003:80\"]\n"
+	case 1: // !reset on an anchored null
+		l2 = "services:\n  one:\n    ports: &none !reset null\n  two:\n    ports: *none\n  three:\n    ports: *none\n"
+		target = "services:\n  one:\n    image: a\n    environment: {KEEP: one}\n  two:\n    image: b\n    environment: {KEEP: two}\n  three:\n    image: c\n    environment: {KEEP: three}\n"
+	default: // an anchored extension fragment holding a tagged attribute, merged into the services
+		l2 = "x-common: &common\n  ports: !override [\"9000:90\"]\nservices:\n  one:\n    <<: *common\n  two:\n    <<: *common\n  three:\n    <<: *common\n"
+		target = "x-common:\n  ports: [\"9000:90\"]\nservices:\n  one:\n    image: a\n    environment: {KEEP: one}\n    ports: [\"9000:90\"]\n  two:\n    image: b\n    environment: {KEEP: two}\n    ports: [\"9000:90\"]\n  three:\n    image: c\n    environment: {KEEP: three}\n    ports: [\"9000:90\"]\n"
+	}
+	c := &Case{Focus: "tagged node with an anchor, used again through aliases", Parts: 2}
+	c.Target = ld.Case{Files: map[string]string{"compose.yaml": target}, ComposeFiles: []string{"compose.yaml"}}
+	if asDocs {
+		c.Carrier = "documents"
+		c.Split = ld.Case{Files: map[string]string{"compose.yaml": l1 + "---\n" + l2}, ComposeFiles: []string{"compose.yaml"}}
+	} else {
+		c.Carrier = "files"
+		c.Split = ld.Case{Files: map[string]string{"compose.yaml": l1, "compose.1.yaml": l2}, ComposeFiles: []string{"compose.yaml", "compose.1.yaml"}}
+	}
+	return c
+}
+
+// nameLayers: `name` is a scalar like any other: the last layer (file or document) that sets it
+// wins, also for the project name the loader derives and hands to interpolation.
+func nameLayers(i int) *Case {
+	asDocs := i%2 == 1
+	variant := (i / 2) % 3
+	svc := "services:\n  s:\n    image: img\n    labels: {project: \"${COMPOSE_PROJECT_NAME}\"}\n"
+	var parts []string
+	final := ""
+	switch variant {
+	case 0:
+		parts, final = []string{"name: base\n" + svc, "name: final\nservices:\n  s:\n    labels: {more: \"1\"}\n"}, "final"
+	case 1:
+		parts, final = []string{svc, "name: final\nservices:\n  s:\n    labels: {more: \"1\"}\n"}, "final"
+	default:
+		parts, final = []string{"name: base\n" + svc, "services:\n  s:\n    labels: {more: \"1\"}\n", "name: final\n"}, "final"
+	}
+	target := "name: " + final + "\nservices:\n  s:\n    image: img\n    labels: {project: \"" + final + "\", more: \"1\"}\n"
+	c := &Case{Focus: "name (set or re-set by a later layer, no name given by the caller)", Parts: len(parts)}
+	c.Target = ld.Case{Files: map[string]string{"compose.yaml": target}, ComposeFiles: []string{"compose.yaml"}, Opts: ld.Opts{Name: "-"}}
+	if asDocs {
+		c.Carrier = "documents"
+		c.Split = ld.Case{Files: map[string]string{"compose.yaml": strings.Join(parts, "---\n")}, ComposeFiles: []string{"compose.yaml"}, Opts: ld.Opts{Name: "-"}}
+	} else {
+		c.Carrier = "files"
+		c.Split = ld.Case{Files: map[string]string{}, Opts: ld.Opts{Name: "-"}}
+		for k, p := range parts {
+			n := "compose.yaml"
+			if k > 0 {
+				n = fmt.Sprintf("compose.%d.yaml", k)
+			}
+			c.Split.Files[n] = p
+			c.Split.ComposeFiles = append(c.Split.ComposeFiles, n)
+		}
+	}
+	return c
+}
